@@ -20,7 +20,7 @@ Theorem C09_poll_input :
   poll_input maxc fuel dest r w = (p, r', w') ->
   exists dl : bytes,
     acct maxc [] r w dl r' w' /\
-    pi_case maxc dest dl r p r' w' /\
+    pi_case maxc dest dl r w p r' w' /\
     rwriteable r' = rwriteable r || poll_parses dest r && is_inl p && is_final_stream r.
 Proof. exact poll_input_reads. Qed.
 
@@ -48,7 +48,7 @@ Theorem C09_eof_persists :
   stream_buffer (rsp r') = [] /\
   match p with
   | PReady (inl (n, b)) => n = 0 /\ b = []
-  | PReady (inr k) => (k = EK_WriteZero \/ k = EK_Transport) /\ output_buffer (rsp r) <> []
+  | PReady (inr k) => fault_of k (wscript w) /\ output_buffer (rsp r) <> []
   | PWake => output_buffer (rsp r) <> []
   | PBlock => False
   end /\ (output_buffer (rsp r) = [] -> p = PReady (inl (0, [])) /\ w' = w).
@@ -84,10 +84,11 @@ Theorem C09_handler_reads :
   pinv (rsp r) ->
   bytes_ok (remaining w) ->
   match run_handler maxc f script r w with
-  | Ok (_, r') w' =>
-      exists (os : list obs) (fin : list N),
+  | Ok (st, r') w' =>
+      exists (os : list obs) (fin : list (list N)),
         obs_of script os /\
-        events w' = fin :: flat_map obs_events (rev os) ++ events w /\
+        events w' = fin ++ flat_map obs_events (rev os) ++ events w /\
+        fin_ok fin os st /\
         K (abs (rsp r)) (remaining w) = flat_map obs_bytes os ++ K (abs (rsp r')) (remaining w')
   | Halt _ w' =>
       exists (os : list obs) (rest : list N),
@@ -143,7 +144,8 @@ Theorem C09_writeable :
      stream (rsp r') = last /\
      sreq (rsp r') = sreq (rsp r) /\
      is_final_stream r' = true /\
-     acct maxc [] {| rsp := p1; rwriteable := false; rlock := rlock r |} w [] r' w' /\
+     acct maxc [] {| rsp := p1; rwriteable := false; rlock := rlock r; raborted := raborted r |} w [] r'
+       w' /\
      match e with
      | Some _ => rwriteable r' = false
      | None =>
